@@ -250,7 +250,17 @@ def shard_cube(spec, R):
         time = pd.date_range("2000-01-01", periods=nt, freq="MS")
         da = xr.DataArray(cube, dims=["y", "x", "time"], coords={"time": time}, attrs={"nodata": nodata})
         order = [("y", "x", "time"), ("time", "y", "x"), ("y", "time", "x")][it % 3]
-        res = da.transpose(*order).hdc.algo.spi(calibration_begin=str(time[c0].date()), calibration_end=str(time[c1 - 1].date()))
+        # the placeholder reaches spi() by attribute, by an explicit argument, or by an argument overriding another attribute
+        how = (it // 3) % 3
+        kwn = {}
+        if how == 1:
+            kwn["nodata"] = nodata
+            da.attrs.pop("nodata")
+        elif how == 2:
+            kwn["nodata"] = nodata
+            da.attrs["nodata"] = -7777.0
+        R.count(f"accessor_nodata_source_{how}")
+        res = da.transpose(*order).hdc.algo.spi(calibration_begin=str(time[c0].date()), calibration_end=str(time[c1 - 1].date()), **kwn)
         R.evaluation()
         out = res.transpose("y", "x", "time").values
         direct = st.gammastd_yxt(cube, nodata, c0, c1)
